@@ -1,0 +1,13 @@
+//go:build verif
+
+package graphite
+
+import "github.com/atlassian/gostatsd/pkg/backends/sender"
+
+// VerifSetConnFactory (verif hook H3) replaces the connection factory of the client's unexported sender,
+// so that a simulator can hand out in-memory connections instead of dialling the Graphite address.
+// It must be called before Run is started (the sender reads the field without synchronisation).
+// Only built with the "verif" tag; the shipped behaviour is unchanged.
+func (client *Client) VerifSetConnFactory(f sender.ConnFactory) {
+	client.sender.ConnFactory = f
+}
